@@ -9,6 +9,7 @@ CONSTANTS
   CountMerges = TRUE
   MaxFaults = 4
   MaxCnt = 100
+  HCAhead = FALSE
   Concurrent = FALSE
   MaxLag = 1
   GenLen = 45
